@@ -4,7 +4,9 @@
 // the child answers a fixed query set and bucket digests on the running instance, the parent has
 // the file reopened cold (another child) and compares with the pre-batch values (error reported or
 // process died before commit) or with the values of a fault-free run (success reported / died
-// right after commit).  The point-store part of every run is also sent to the Lean model.
+// right after commit).  Fault kinds: the k-th fallible storage call fails, the k-th point-store call
+// fails, the k-th bucket-manager Get fails, THE COMMIT ITSELF FAILS (the callback returned nil, the
+// storage rolls back, Write returns an error), exit at the k-th call / before / after commit.  The point-store part of every run is also sent to the Lean model.
 package main
 
 import (
@@ -312,6 +314,8 @@ func stageOf(t task) string {
 		return "storage-error"
 	case "bmget":
 		return "index-construction"
+	case "commitErr":
+		return "commit-error"
 	}
 	return "fault-" + t.fault.Kind
 }
@@ -337,7 +341,9 @@ func (h *harness) evaluate(bc *batchCtx, oc *outcome) {
 	case oc.timedOut:
 		count("outcome:hang")
 		blocked := strings.Contains(oc.stderr, "cache.(*Transaction).With") && strings.Contains(oc.stderr, "sync.(*RWMutex).Lock")
-		if oc.has("call-returned err") && blocked {
+		if oc.has("call-returned err") && blocked && t.fault.Kind == "commitErr" {
+			h.fail("hang-after-commit-fault:"+tag, "the commit of the batch failed (the Write callback had returned nil, every stage had finished) and the error was reported; afterwards a write on the same running instance blocks for ever in cache.Transaction.With: a shared cache written by the batch is still write-locked", t, strings.Join(oc.markers, "\n"))
+		} else if oc.has("call-returned err") && blocked {
 			h.mu.Lock()
 			h.hangs[stageOf(t)]++
 			h.hangsKind[stageOf(t)+"/"+t.b.Kind]++
@@ -362,7 +368,10 @@ func (h *harness) evaluate(bc *batchCtx, oc *outcome) {
 			h.stats["late-ops-seen:"+stageOf(t)]++
 			h.mu.Unlock()
 		}
-		if rep.LockLeaked {
+		if rep.LockLeaked && t.fault.Kind == "commitErr" {
+			count("outcome:cache-lock-leaked")
+			h.fail("cache-lock-leaked-after-commit-fault:"+tag, "the commit of the batch failed after the Write callback had returned nil (no stage of the batch is running any more) and the error was reported, but a shared cache written by the batch is left write-locked: every later write touching that index blocks for ever", t, fmt.Sprintf("caches after: %v", rep.CachesPost))
+		} else if rep.LockLeaked {
 			h.mu.Lock()
 			h.hangs[stageOf(t)]++
 			h.hangsKind[stageOf(t)+"/"+t.b.Kind]++
@@ -374,7 +383,13 @@ func (h *harness) evaluate(bc *batchCtx, oc *outcome) {
 			h.fail("observe-panicked:"+tag, "answering the query set panicked: "+rep.Pre.Err+rep.Post.Err, t, "")
 			return
 		}
-		if rep.Result == "ok" {
+		if t.fault.Kind == "commitErr" && (!oc.has("closure-returned ok") || !oc.has("write-returned err")) {
+			h.fail("harness-broken", "commit fault requested but the proxy did not see 'callback returned nil, Write returned an error'", t, strings.Join(oc.markers, "\n"))
+		}
+		if rep.Result == "ok" && t.fault.Kind == "commitErr" {
+			// the storage rolled the transaction back and Write returned an error: success must not be reported
+			h.fail("success-reported-after-commit-fault:"+tag, "the commit of the write transaction failed (everything was rolled back, Write returned an error) but the batch reported success", t, strings.Join(oc.markers, "\n"))
+		} else if rep.Result == "ok" {
 			expectPost = true
 			if bc.ref != nil && bc.ref.Result == "ok" && t.variant == "base" {
 				if !sameQ(bc.ref.Post.Q, rep.Post.Q) || !sameM(bc.ref.Post.Canon, rep.Post.Canon) {
@@ -617,6 +632,9 @@ func (h *harness) leanFor(bc *batchCtx, oc *outcome) {
 		fault = "crashpost"
 	case "bmget":
 		fault = "idx"
+	case "commitErr":
+		// the model's fault position "number of storage calls": after the last one, i.e. the commit
+		fault = "commit"
 	case "err":
 		if oc.rep == nil || oc.rep.Fired == "" {
 			return
@@ -825,7 +843,7 @@ func main() {
 		n := 0
 		add := func(variantName string, b Batch, f Fault, rep int) {
 			// every other failing run re-issues the batch on the same running instance afterwards
-			retry := (f.Kind == "err" || f.Kind == "bmget" || f.Kind == "psErr" || variantName != "base") && (n+rep)%2 == 1
+			retry := (f.Kind == "err" || f.Kind == "bmget" || f.Kind == "psErr" || f.Kind == "commitErr" || variantName != "base") && (n+rep)%2 == 1
 			jobs = append(jobs, job{bc, task{batch: bc.i, variant: variantName, b: b, fault: f, rep: rep, idx: n, retry: retry}})
 			n++
 		}
@@ -868,6 +886,11 @@ func main() {
 		for _, k := range pickKs(rng, len(ref.PS), want(3, 0), thorough) {
 			add("base", bc.b, Fault{Kind: "psExit", K: k}, 0)
 		}
+		// the commit step itself fails: the callback ran to completion and returned nil, the storage rolls
+		// back and Write returns an error (fault position = number of storage calls).  Twice: once judged
+		// as is (and replayed by the model), once with the batch re-issued on the same running instance
+		add("base", bc.b, Fault{Kind: "commitErr"}, n%2)   // retry=false
+		add("base", bc.b, Fault{Kind: "commitErr"}, 1-n%2) // retry=true
 		add("base", bc.b, Fault{Kind: "exitPre"}, 0)
 		add("base", bc.b, Fault{Kind: "exitPost"}, 0)
 		for _, vn := range variantNames {
